@@ -422,7 +422,7 @@ def sweep_shard(name, n):
     cx = Ctx(name)
     try:
         p = cx.p
-        ks = list(range(1, n + 1)) + sorted({b + d for e in range(1, 80) for b in (1 << e, 10 ** (e // 3)) for d in (-1, 0, 1) if b + d > n})
+        ks = backends.sweep_scalars(n)
         B = 25
         for i in range(0, len(ks), B):
             blk = ks[i:i + B]
